@@ -1,9 +1,9 @@
-(** C09 — mem_lock_skeleton_pinned: the memory store skeleton regenerated from the source IS the structure Model/ConcMem.v transcribes (lock sites, rendezvous, instrumentation points, calls, per function); the only instrumentation point under a mailbox lock is mem.add.visible *)
+(** C09 — mem_lock_skeleton_pinned: for every operation of the memory store, the enforcer goroutine and the constructor, the skeleton regenerated from the source — with every helper call and every withMailbox replaced by what it runs — IS the structure Model/ConcMem.v transcribes (lock sites, rendezvous, instrumentation points); the only instrumentation point under a mailbox lock is mem.add.visible *)
 From IV Require Import Model.ConcSk Gen.StoreLocks.
 From IV Require Import Model.Conc Model.ConcMem Proofs.ConcBase Proofs.ConcMemInv.
 From IV Require Import Proofs.ConcLocks.
 Theorem mem_lock_skeleton_pinned :
-  mem_sk = model_sk /\
+  map (expanded mem_sk) api = map (expanded model_sk) api /\
   points_under_mailbox_lock mem_sk = [("Store.AddMessage", "mem.add.visible")].
 Proof. first [exact ConcLocks.mem_lock_skeleton_pinned | intros; apply ConcLocks.mem_lock_skeleton_pinned]. Qed.
 Print Assumptions mem_lock_skeleton_pinned.
